@@ -93,17 +93,17 @@ def run(ctx):
     quick = ctx.tier == "quick"
     unicode_facts(ctx)
     # the matcher: model vs fuzzy.Find, scores and matched indexes
-    r = ctx.correspond("fuzzy", 400 if quick else 8000, nontrivial=nt_fuzzy, sample_n=2)
+    r = ctx.correspond("fuzzy", 1500 if quick else 20000, nontrivial=nt_fuzzy, sample_n=2)
     check_rune_tables(ctx, r, "fuzzy")
     # every pattern of length <= 3 (259 of them, one per case) against every target of length <= 4 / 5
     r = ctx.correspond("fuzzy", 259, name="fuzzy-exhaustive", args={"exhaustive": "1", "maxt": "4" if quick else "5"},
                        nontrivial=nt_fuzzy, shrink=False, sample_n=0, seed_offset=1)
     ctx.exhaustive = True  # stream fuzzy-exhaustive: complete enumeration of its finite space (both tiers; larger in thorough)
     # paired UseFuzzy off/on searches across thresholds, NLP on and off
-    r = ctx.correspond("search", 40 if quick else 700, name="search-c07", args={"stream": "c07"}, shrink=False, nontrivial=nt_search)
+    r = ctx.correspond("search", 120 if quick else 1000, name="search-c07", args={"stream": "c07"}, shrink=False, nontrivial=nt_search)
     check_rune_tables(ctx, r, "search-c07")
     # the general generator (random options incl. thresholds, padded / odd queries) and C04's mixed-platform stream
-    r = ctx.correspond("search", 400 if quick else 6000, name="search", shrink=False, nontrivial=nt_search, seed_offset=5, sample_n=1)
+    r = ctx.correspond("search", 1000 if quick else 8000, name="search", shrink=False, nontrivial=nt_search, seed_offset=5, sample_n=1)
     check_rune_tables(ctx, r, "search")
-    ctx.correspond("search", 15 if quick else 200, name="search-c04", args={"stream": "c04"}, shrink=False, nontrivial=nt_search,
+    ctx.correspond("search", 40 if quick else 300, name="search-c04", args={"stream": "c04"}, shrink=False, nontrivial=nt_search,
                    seed_offset=9, sample_n=0)
